@@ -18,46 +18,46 @@ func init() {
 	addProperty(&Property{
 		ID:         "C01",
 		Title:      "Parse then print preserves the meaning of every accepted module",
-		Decided:    "over every construct of the translator and printers: each grammar alternative is dispatched or rejected with an error, never a panic or silent skip (EXH, SIB); scaffold and fill translators agree on the IR type per AST node (PAIR); every syntax accessor of every handled AST node is read and used (ACC) and lands in the like-named IR field (FLOW); every IR field the parser allocates is filled (FLD-W) and every IR field is read by its printer (FLD-P), in grammar order (ORD), under the right opcode keyword (OPC); errors of the translator's own functions are returned, never dropped or turned into panics (ERR), and never accompanied by a module (NILMOD); no success return of a translator precedes an unconditional store to a field of the object being filled (EARLY-RET); a name the printer omits as default is the default the translator substitutes (ELIDE); a debug-info field is omitted only at the zero value the translator leaves for an absent field (MD-OMIT); the result type attached to a parsed getelementptr considers every index and keeps the address space (GEP-RES, GEP-VLEN); literal constants are built only by the literal readers (LIT-CTOR); quoted digit strings are names (ENC-CLASS); the result type the translator attaches to an instruction is the one the library computes for it, so uses print with the type the definition has (TYP-AGREE); enum-valued fields are omitted only at the value the translator substitutes (ENUM-OMIT); sibling alternatives of a scaffold dispatcher apply the same setters (SIB-SET); no field translator depends on the order of `key: value` fields in the input (FLD-LOOP).",
+		Decided:    "over every construct of the translator and printers: each grammar alternative is dispatched or rejected with an error, never a panic or silent skip (EXH, SIB); scaffold and fill translators agree on the IR type per AST node (PAIR); every syntax accessor of every handled AST node is read and used (ACC) and lands in the like-named IR field (FLOW); every IR field the parser allocates is filled (FLD-W) and every IR field is read by its printer (FLD-P), in grammar order (ORD), under the right opcode keyword (OPC); errors of the translator's own functions are returned, never dropped or turned into panics (ERR), and never accompanied by a module (NILMOD); no success return of a translator precedes an unconditional store to a field of the object being filled (EARLY-RET); a name the printer omits as default is the default the translator substitutes (ELIDE); a debug-info field is omitted only at the zero value the translator leaves for an absent field (MD-OMIT); the result type attached to a parsed getelementptr considers every index and keeps the address space (GEP-RES, GEP-VLEN); literal constants are built only by the literal readers (LIT-CTOR); quoted digit strings are names (ENC-CLASS); the result type the translator attaches to an instruction is the one the library computes for it, so uses print with the type the definition has (TYP-AGREE); enum-valued fields are omitted only at the value the translator substitutes (ENUM-OMIT); sibling alternatives of a scaffold dispatcher apply the same setters (SIB-SET); no field translator depends on the order of `key: value` fields in the input (FLD-LOOP); every spelling the literal printers emit is read back by the literal readers with the same value (LIT-INT-TAB, LIT-FP-TAB).",
 		NotDecided: "that the printed text means the same to LLVM at the level of values (literal formatting is C09/C10/C11); crashes guarded by data conditions.",
-		Rules:      []RuleUse{{Rule: "EXH"}, {Rule: "SIB"}, {Rule: "PAIR"}, {Rule: "ACC"}, {Rule: "FLOW"}, {Rule: "FLD-W"}, {Rule: "FLD-P"}, {Rule: "ORD"}, {Rule: "OPC"}, {Rule: "ERR"}, {Rule: "NILMOD"}, {Rule: "EARLY-RET"}, {Rule: "ELIDE"}, {Rule: "MD-OMIT"}, {Rule: "GEP-RES"}, {Rule: "GEP-VLEN"}, {Rule: "LIT-CTOR"}, {Rule: "ENC-CLASS"}, {Rule: "SCAF-NAME"}, {Rule: "TYP-AGREE"}, {Rule: "ENUM-OMIT"}, {Rule: "SIB-SET"}, {Rule: "FLD-LOOP"}},
+		Rules:      []RuleUse{{Rule: "EXH"}, {Rule: "SIB"}, {Rule: "PAIR"}, {Rule: "ACC"}, {Rule: "FLOW"}, {Rule: "FLD-W"}, {Rule: "FLD-P"}, {Rule: "ORD"}, {Rule: "OPC"}, {Rule: "ERR"}, {Rule: "NILMOD"}, {Rule: "EARLY-RET"}, {Rule: "ELIDE"}, {Rule: "MD-OMIT"}, {Rule: "GEP-RES"}, {Rule: "GEP-VLEN"}, {Rule: "LIT-CTOR"}, {Rule: "ENC-CLASS"}, {Rule: "SCAF-NAME"}, {Rule: "TYP-AGREE"}, {Rule: "ENUM-OMIT"}, {Rule: "SIB-SET"}, {Rule: "FLD-LOOP"}, {Rule: "LIT-INT-TAB"}, {Rule: "LIT-FP-TAB"}},
 	})
 	addProperty(&Property{
 		ID:         "C03",
 		Title:      "IR built through the constructors prints to valid, faithful LLVM assembly",
-		Decided:    "every constructor parameter is stored, same-typed parameters in the like-named field (CTOR-1); lazily cached result types are computed in the constructor (CTOR-2); every builder method forwards its parameters in order to the like-named constructor, stores the result once, sets Parent and returns it (CTOR-3); every field is read by its printer (FLD-P) in grammar order (ORD) under the right opcode (OPC); the getelementptr constructors compute their result type through the shared walk with the vector length of every index taken from the index type (GEP-WALK, GEP-VLEN on ir and ir/constant); unnamed values are numbered in the order they are printed (NUM-ORDER); the shared gep walk examines every index and keeps the address space (GEP-RES); parameter-list printers write `...` whenever the type is variadic (ELLIPSIS); constructor type checks compare the operands' own types, not synthesised ones (CTOR-CHK); printing and the type / identifier queries cache nothing in the IR beyond IDs and result types, so the text does not depend on when during construction a query was made (OBS-1).",
+		Decided:    "every constructor parameter is stored, same-typed parameters in the like-named field (CTOR-1); lazily cached result types are computed in the constructor (CTOR-2); every builder method forwards its parameters in order to the like-named constructor, stores the result once, sets Parent and returns it (CTOR-3); every field is read by its printer (FLD-P) in grammar order (ORD) under the right opcode (OPC); the getelementptr constructors compute their result type through the shared walk with the vector length of every index taken from the index type (GEP-WALK, GEP-VLEN on ir and ir/constant); unnamed values are numbered in the order they are printed (NUM-ORDER); the shared gep walk examines every index and keeps the address space (GEP-RES); parameter-list printers write `...` whenever the type is variadic (ELLIPSIS); constructor type checks compare the operands' own types, not synthesised ones (CTOR-CHK); printing and the type / identifier queries cache nothing in the IR beyond IDs and result types, so the text does not depend on when during construction a query was made (OBS-1). Every printer numbers unconditionally before it prints, so declarations and definitions alike never print two unnamed values under one number (NUM-FIRST). Constants built through the API are spelled by the same literal printers, whose tables agree with the readers and with LLVM's layout of the hexadecimal forms (LIT-INT-TAB, LIT-FP-TAB).",
 		NotDecided: "acceptance of the text by LLVM, execution results, structural identity after re-parsing, and that a constructor's own type check never rejects a well-typed operand beyond the structural clause of CTOR-CHK.",
 		Rules: []RuleUse{{Rule: "CTOR-1"}, {Rule: "CTOR-2"}, {Rule: "CTOR-3"}, {Rule: "FLD-P"}, {Rule: "ORD"}, {Rule: "OPC"},
-			{Rule: "GEP-WALK", Filter: keyPrefix("ir.", "ir/constant."), Floor: 4}, {Rule: "GEP-VLEN", Filter: keyPrefix("ir.", "ir/constant."), Floor: 2}, {Rule: "NUM-ORDER"}, {Rule: "GEP-RES"}, {Rule: "ELLIPSIS"}, {Rule: "CTOR-CHK"}, {Rule: "OBS-1"}},
+			{Rule: "GEP-WALK", Filter: keyPrefix("ir.", "ir/constant."), Floor: 4}, {Rule: "GEP-VLEN", Filter: keyPrefix("ir.", "ir/constant."), Floor: 2}, {Rule: "NUM-ORDER"}, {Rule: "GEP-RES"}, {Rule: "ELLIPSIS"}, {Rule: "CTOR-CHK"}, {Rule: "OBS-1"}, {Rule: "NUM-FIRST"}, {Rule: "LIT-FP-TAB"}, {Rule: "LIT-INT-TAB"}},
 	})
 	addProperty(&Property{
 		ID:         "C15",
 		Title:      "Operand and successor views are complete and live",
-		Decided:    "every value.Value slot reachable from an instruction or terminator (through operand-carrier structs and slices) has its address returned by Operands() (OPS-1); every returned element is the address of a slot rooted at the pointer receiver (OPS-2); Succs() reads every constructor-filled target field in order (OPS-3); both views are pure — no cached state that can go stale (OPS-4, SSA write effects).",
+		Decided:    "every value.Value slot reachable from an instruction or terminator (through operand-carrier structs and slices) has its address returned by Operands() (OPS-1); every returned element is the address of a slot rooted at the pointer receiver (OPS-2); Succs() reads every constructor-filled target field in order (OPS-3); both views are pure — no cached state that can go stale (OPS-4, SSA write effects). Operand-holding parts (bundles, cases, incomings, clauses) are never cached by the translator, so two instructions never share operand slots (OPS-SHARE).",
 		NotDecided: "that a replacement through *ir.Arg-wrapped argument slots is found by a client comparing *slot == old; that all successors are blocks of the same function for constructed IR.",
-		Rules:      []RuleUse{{Rule: "OPS-1"}, {Rule: "OPS-2"}, {Rule: "OPS-3"}, {Rule: "OPS-4"}},
+		Rules:      []RuleUse{{Rule: "OPS-1"}, {Rule: "OPS-2"}, {Rule: "OPS-3"}, {Rule: "OPS-4"}, {Rule: "OPS-SHARE"}},
 	})
 	addProperty(&Property{
 		ID:         "C16",
 		Title:      "Type equality is a structural equivalence matching LLVM type identity",
-		Decided:    "each kind's Equal reads every identity field on both sides (EQ-1), guards on the argument's kind and returns false otherwise (EQ-2, necessary for symmetry), and the struct kind cuts recursion at type names before descending into fields (EQ-3, necessary for termination); every field of every type kind is printed (FLD-P on ir/types) and read back (ACC/FLOW on the type translators), which equality through print/parse relies on.",
+		Decided:    "each kind's Equal reads every identity field on both sides (EQ-1), guards on the argument's kind and returns false otherwise (EQ-2, necessary for symmetry), and the struct kind cuts recursion at type names before descending into fields (EQ-3, necessary for termination); every field of every type kind is printed (FLD-P on ir/types) and read back (ACC/FLOW on the type translators), which equality through print/parse relies on. Equal on pointer types compares printed text, so no type printer may cache its text in the type (OBS-1 restricted to ir/types: expected instances none).",
 		NotDecided: "transitivity as such; that the pointer kind's comparison of printed forms coincides with structure for all element types; preservation by print/parse beyond field coverage.",
-		Rules:      []RuleUse{{Rule: "EQ-1"}, {Rule: "EQ-2"}, {Rule: "EQ-3"}, {Rule: "FLD-P", Filter: tag("types"), Floor: 15}, {Rule: "FLOW", Filter: tag("types"), Floor: 10}, {Rule: "EARLY-RET", Filter: tag("types"), Floor: 5}, {Rule: "ENUM-HAND", Filter: tag("types"), Floor: 1}},
+		Rules:      []RuleUse{{Rule: "EQ-1"}, {Rule: "EQ-2"}, {Rule: "EQ-3"}, {Rule: "FLD-P", Filter: tag("types"), Floor: 15}, {Rule: "FLOW", Filter: tag("types"), Floor: 10}, {Rule: "EARLY-RET", Filter: tag("types"), Floor: 5}, {Rule: "ENUM-HAND", Filter: tag("types"), Floor: 1}, {Rule: "OBS-1", Filter: keyHas("ir/types.")}},
 	})
 	addProperty(&Property{
 		ID:         "C05",
 		Title:      "Undefined or doubly defined names are reported as errors",
-		Decided:    "no unchecked lookup in an index of definitions (LK-1); every lookup of a decoded identifier returns an error on a miss and the found object on a hit (LK-2); every insertion into an index is guarded by a duplicate test that always errors (DUP); errors of translator functions are propagated, never panicked or dropped (ERR); an error never comes with a module (NILMOD); the table of a function's locals is created fresh per function and never replaced or shared, so a name another function defined cannot satisfy a lookup (SCOPE); the exact exception a duplicate test lets through is part of the construct, so a recorded exception does not hide another one (DUP).",
+		Decided:    "no unchecked lookup in an index of definitions (LK-1); every lookup of a decoded identifier returns an error on a miss and the found object on a hit (LK-2); every insertion into an index is guarded by a duplicate test that always errors (DUP); errors of translator functions are propagated, never panicked or dropped (ERR); an error never comes with a module (NILMOD); the table of a function's locals is created fresh per function and never replaced or shared, so a name another function defined cannot satisfy a lookup (SCOPE); the exact exception a duplicate test lets through is part of the construct, so a recorded exception does not hide another one (DUP). Duplicate or out-of-order explicit %N / @N are rejected by the numbering routine the parser relies on: its failing condition is `current != 0 && current != position` (NUM-VALID).",
 		NotDecided: "reference sites that never reach a lookup at all (e.g. names only used by constructs the IR does not model); blockaddress placeholders (covered under C04 by TODO).",
-		Rules:      []RuleUse{{Rule: "LK-1"}, {Rule: "LK-2"}, {Rule: "DUP"}, {Rule: "ERR"}, {Rule: "NILMOD"}, {Rule: "TODO"}, {Rule: "PHASE"}, {Rule: "SCOPE"}},
+		Rules:      []RuleUse{{Rule: "LK-1"}, {Rule: "LK-2"}, {Rule: "DUP"}, {Rule: "ERR"}, {Rule: "NILMOD"}, {Rule: "TODO"}, {Rule: "PHASE"}, {Rule: "SCOPE"}, {Rule: "NUM-VALID"}},
 	})
 	addProperty(&Property{
 		ID:         "C12",
 		Title:      "Translation is deterministic",
-		Decided:    "every range over a map in the translator and printer is collect-then-sort or has a commutative body (DET-1, all instances, closed over the call graph); nothing reachable from Parse* or printing writes package-level state in llir/llvm, llir/ll or mewmew/float (DET-2); every entry point funnels into ParseString → translate (DET-3); every emitted list is in sorted or recorded textual order (ORD-SORT); no IR object is allocated with a lazily computed type cache, whose first computation during translation would freeze a value that depends on which entity the map iteration reaches first (RACE-3, CACHE-ORDER); no module data aliases caller-owned memory (NO-UNSAFE: ParseBytes copies); the library starts no goroutine, so one parse is one sequential computation (NO-GO).",
+		Decided:    "every range over a map in the translator and printer is collect-then-sort or has a commutative body (DET-1, all instances, closed over the call graph); nothing reachable from Parse* or printing writes package-level state in llir/llvm, llir/ll or mewmew/float (DET-2); every entry point funnels into ParseString → translate (DET-3); every emitted list is in sorted or recorded textual order (ORD-SORT); no IR object is allocated with a lazily computed type cache, whose first computation during translation would freeze a value that depends on which entity the map iteration reaches first (RACE-3, CACHE-ORDER); no module data aliases caller-owned memory (NO-UNSAFE: ParseBytes copies); the library starts no goroutine, so one parse is one sequential computation (NO-GO). The cached type of a global-entity scaffold is final at creation, so what another entity sees when it takes that type does not depend on the map order in which bodies are translated (SCAF-TYPE).",
 		NotDecided: "totality of the natural-sort comparison on which sorted results rely (see C20); determinism of the generated LALR parser beyond writing no package-level state; per-entity objects shared between two map iterations (type-based commutativity argument).",
 		Technique:  "static analysis: SSA write-effect summaries closed over the VTA call graph (freshness, singleton-type classification) + go/ast idiom rules for map ranges (DET-1, DET-2, DET-3, ORD-SORT)",
-		Rules:      []RuleUse{{Rule: "DET-1"}, {Rule: "DET-2"}, {Rule: "DET-3"}, {Rule: "ORD-SORT"}, {Rule: "RACE-3"}, {Rule: "CACHE-ORDER"}, {Rule: "NO-UNSAFE"}, {Rule: "NO-GO"}},
+		Rules:      []RuleUse{{Rule: "DET-1"}, {Rule: "DET-2"}, {Rule: "DET-3"}, {Rule: "ORD-SORT"}, {Rule: "RACE-3"}, {Rule: "CACHE-ORDER"}, {Rule: "NO-UNSAFE"}, {Rule: "NO-GO"}, {Rule: "SCAF-TYPE"}},
 	})
 	addProperty(&Property{
 		ID:         "C13",
@@ -96,11 +96,11 @@ func init() {
 	addProperty(&Property{
 		ID:         "C04",
 		Title:      "Every reference in a parsed module is the object that defines it",
-		Decided:    "every definition object the parser allocates flows into a registering index or container, and nothing but the blockaddress placeholder is allocated outside that discipline (ALLOC, SSA value flow); the placeholder is queued, the queue is drained before the module is returned and the fixer installs a block of the function itself or fails (TODO); uses obtain the looked-up object itself, or an error (LK-2, LK-1); locals resolve only in their own function's table (SCOPE); every index is completely filled before any step consults it (PHASE); parent links are set at creation by the parser (PARENT) and by the builder API (CTOR-3).",
+		Decided:    "every definition object the parser allocates flows into a registering index or container, and nothing but the blockaddress placeholder is allocated outside that discipline (ALLOC, SSA value flow); the placeholder is queued, the queue is drained before the module is returned and the fixer installs a block of the function itself or fails (TODO); uses obtain the looked-up object itself, or an error (LK-2, LK-1); locals resolve only in their own function's table (SCOPE); every index is completely filled before any step consults it (PHASE); parent links are set at creation by the parser (PARENT) and by the builder API (CTOR-3). Operand-holding parts of instructions are not shared between instructions (OPS-SHARE). A parent link assigned after construction is assigned on every success path (EARLY-RET restricted to stores into a Parent field).",
 		NotDecided: "identity along paths the flow rules do not model (objects copied by value).",
 		Technique:  "static analysis: SSA value-flow of allocation sites to registering sinks over the VTA call graph, call-graph phase ordering, go/ast idiom rules (ALLOC, TODO, SCOPE, PHASE, PARENT, LK-1, LK-2)",
 		Rules: []RuleUse{{Rule: "ALLOC"}, {Rule: "IDX-ONCE"}, {Rule: "TODO"}, {Rule: "SCOPE"}, {Rule: "PHASE"}, {Rule: "PARENT"}, {Rule: "LK-1"}, {Rule: "LK-2"}, {Rule: "ENC-CLASS"}, {Rule: "SCAF-NAME"},
-			{Rule: "CTOR-3"}},
+			{Rule: "CTOR-3"}, {Rule: "OPS-SHARE"}, {Rule: "EARLY-RET", Filter: keyHas(".Parent")}},
 	})
 	addProperty(&Property{
 		ID:         "C06",
@@ -119,9 +119,9 @@ func init() {
 	addProperty(&Property{
 		ID:         "C08",
 		Title:      "Unnamed values are numbered exactly as LLVM numbers them",
-		Decided:    "the printer's numbering traversal and the parser's indexing traversal have the same nest, filters and asserted interface (NUM-SHAPE); a type is numbered exactly when it prints a `<ident> = ` prefix, conditional on non-void exactly for call-like types and with the numbering's own skip predicate (NUM-PREFIX); numbering stores only the position counter, starting at 0 and advancing once per unnamed entity, so renumbering an already numbered function changes nothing (NUM-REDERIVE, RACE-2 guard); one numbering authority per ID space (NUM-AUTH); call-like result types are known before numbering (RACE-3). Every top-level entity the parser indexes by global identifier has passed through the parser's numbering function first (NUM-PARSE).",
+		Decided:    "the printer's numbering traversal and the parser's indexing traversal have the same nest, filters and asserted interface (NUM-SHAPE); a type is numbered exactly when it prints a `<ident> = ` prefix, conditional on non-void exactly for call-like types and with the numbering's own skip predicate (NUM-PREFIX); numbering stores only the position counter, starting at 0 and advancing once per unnamed entity, so renumbering an already numbered function changes nothing (NUM-REDERIVE, RACE-2 guard); one numbering authority per ID space (NUM-AUTH); call-like result types are known before numbering (RACE-3). Every top-level entity the parser indexes by global identifier has passed through the parser's numbering function first (NUM-PARSE). Printers call the numbering routines unconditionally (NUM-FIRST); the routines reject exactly the explicit IDs that differ from the position (NUM-VALID).",
 		NotDecided: "the arithmetic of the counters as such; agreement with LLVM's own numbering beyond the traversal order LLVM documents.",
-		Rules:      []RuleUse{{Rule: "NUM-SHAPE"}, {Rule: "NUM-PREFIX"}, {Rule: "NUM-REDERIVE"}, {Rule: "NUM-AUTH"}, {Rule: "NUM-ORDER"}, {Rule: "RACE-2"}, {Rule: "RACE-3"}, {Rule: "TYP-AGREE", Filter: tag("call"), Floor: 3}, {Rule: "ENC-CLASS"}, {Rule: "NUM-PARSE"}},
+		Rules:      []RuleUse{{Rule: "NUM-SHAPE"}, {Rule: "NUM-PREFIX"}, {Rule: "NUM-REDERIVE"}, {Rule: "NUM-AUTH"}, {Rule: "NUM-ORDER"}, {Rule: "RACE-2"}, {Rule: "RACE-3"}, {Rule: "TYP-AGREE", Filter: tag("call"), Floor: 3}, {Rule: "ENC-CLASS"}, {Rule: "NUM-PARSE"}, {Rule: "NUM-FIRST"}, {Rule: "NUM-VALID"}},
 	})
 	addProperty(&Property{
 		ID:         "C11",
@@ -147,9 +147,9 @@ func init() {
 	addProperty(&Property{
 		ID:         "C02",
 		Title:      "Printed output is a fixpoint of parse and print",
-		Decided:    "only conditions necessary for idempotence itself (dropping a field is idempotent, so coverage rules are deliberately not attached): output cannot depend on map iteration order (DET-1); every keyword, literal spelling class and identifier spelling the printer can choose is read back into the same class/value table entry (ENUM-TAB, ENUM-LEX, LIT-INT-TAB, LIT-FP-TAB, ENC-NUM, ENC-PAIR, MD-KEY); the numbering the printer emits is the numbering the parser assigns on re-read (NUM-SHAPE, NUM-PREFIX, NUM-AUTH); every emitted list is already in the order a re-parse would put it in (ORD-SORT); a name the printer omits as default is exactly the default the translator substitutes (ELIDE); a merge that removes duplicates removes them across all merged definitions, so that merging its own output changes nothing (DEDUP-SCOPE); literal token text is decoded by the one reader the printer's spellings are matched against (LIT-READER).",
+		Decided:    "only conditions necessary for idempotence itself (dropping a field is idempotent, so coverage rules are deliberately not attached): output cannot depend on map iteration order (DET-1); every keyword, literal spelling class and identifier spelling the printer can choose is read back into the same class/value table entry (ENUM-TAB, ENUM-LEX, LIT-INT-TAB, LIT-FP-TAB, ENC-NUM, ENC-PAIR, MD-KEY); the numbering the printer emits is the numbering the parser assigns on re-read (NUM-SHAPE, NUM-PREFIX, NUM-AUTH); every emitted list is already in the order a re-parse would put it in (ORD-SORT); a name the printer omits as default is exactly the default the translator substitutes (ELIDE); a merge that removes duplicates removes them across all merged definitions, so that merging its own output changes nothing (DEDUP-SCOPE); literal token text is decoded by the one reader the printer's spellings are matched against (LIT-READER). No field translator depends on the order of `key: value` fields, so the printer's canonical order is read like any other (FLD-LOOP); no two values of an enum-valued attribute share one spelling and none is omitted except at the value the reader substitutes (ENUM-OMIT).",
 		NotDecided: "byte equality of the two texts; structural identity of the two parsed modules; acceptance of the printed text by the generated LALR parser beyond keyword/terminal membership.",
 		Rules: []RuleUse{{Rule: "DET-1"}, {Rule: "ENUM-TAB"}, {Rule: "ENUM-LEX"}, {Rule: "LIT-INT-TAB"}, {Rule: "LIT-FP-TAB"}, {Rule: "ENC-NUM"}, {Rule: "ENC-PAIR"}, {Rule: "MD-KEY"},
-			{Rule: "NUM-SHAPE"}, {Rule: "NUM-PREFIX"}, {Rule: "NUM-AUTH"}, {Rule: "ORD-SORT"}, {Rule: "ELIDE"}, {Rule: "DEDUP-SCOPE"}, {Rule: "LIT-READER"}, {Rule: "NUM-ORDER"}},
+			{Rule: "NUM-SHAPE"}, {Rule: "NUM-PREFIX"}, {Rule: "NUM-AUTH"}, {Rule: "ORD-SORT"}, {Rule: "ELIDE"}, {Rule: "DEDUP-SCOPE"}, {Rule: "LIT-READER"}, {Rule: "NUM-ORDER"}, {Rule: "FLD-LOOP"}, {Rule: "ENUM-OMIT"}},
 	})
 }
